@@ -22,6 +22,7 @@ import BRV.Proofs.RepoWF
 import BRV.Proofs.RepoWork
 import BRV.Proofs.RepoExample
 import BRV.Proofs.ForestStep
+import BRV.Proofs.ForestClean
 
 namespace BRV.Repo
 
@@ -571,6 +572,169 @@ theorem C01_after_load_submissions (r0 : Repo) (depth : Int) (hd : 0 ≤ depth) 
   refine ⟨rl, hl, fun hq => ?_⟩
   have htm : TipMax (submitAll rl subs) := C01_tip_maximal_submissions rl subs ⟨hok.tip, hok.heaviest⟩ hq
   have hf := forestOK_submitAll subs rl hok.forest (quiet_noAutoClean subs rl hq)
+  obtain ⟨lo, h0, _, hcov, hlk⟩ := forest_best_chain _ hf htm.1
+  exact ⟨htm, lo, h0, hcov, hlk⟩
+
+/-- the pre-clean state of a submission has a maximal tip (no hypothesis about the automatic clean). -/
+theorem tipMax_midState (r : Repo) (h : Hdr) (ok : Bool) (hmax : TipMax r)
+    (hset : (processHeader r h ok).2.verdict.settled = true) : TipMax (midState r h ok) := by
+  unfold midState
+  cases hpc : precheck r h ok with
+  | inl v => exact hmax
+  | inr x =>
+    obtain ⟨pb, ph, lst⟩ := x
+    have hpass := precheck_inr r h ok pb ph lst hpc
+    rw [processHeader_of_inr r h ok pb ph lst hpc] at hset
+    unfold applyHeader at hset
+    simp only
+    by_cases hfork : lst.hdr.id ≠ h.prev
+    · rw [if_pos hfork]
+      simp only [hfork, ne_eq, not_false_eq_true, ↓reduceIte] at hset
+      rcases forkHeader_verdict_cases r h pb ph with hv | ⟨m, hv⟩ | ⟨m, hv⟩
+      · exact C01_fork_path r h pb ph hv
+      · rw [hv] at hset; cases hset
+      · rw [hv] at hset; cases hset
+    · rw [if_neg hfork]
+      simp only [hfork, ↓reduceIte] at hset
+      unfold extendHeader at hset
+      cases hw : Work.blockWork h.bits with
+      | none => exact hmax
+      | some w =>
+        simp only [hw] at hset ⊢
+        have hl : (addToBranch r h pb ph lst w).longest = r.longest := rfl
+        by_cases hpl : pb = r.longest
+        · subst hpl
+          have hnn : ¬ (r.longest ≠ (addToBranch r h r.longest ph lst w).longest) := by rw [hl]; simp
+          rw [if_neg hnn]
+          have hlw : lastWork r.arena r.longest = some lst.work := by
+            have := hpass.lastIs
+            unfold Repo.lastOf Repo.br Branch.last? at this
+            unfold lastWork
+            obtain ⟨hmem, wl, hwl, _⟩ := hmax
+            have hlen := lastWork_lt_length _ _ _ hwl
+            rw [List.getElem?_eq_getElem hlen] at this ⊢
+            simp only [Option.getD_some, Option.bind_some, Branch.last?] at this ⊢
+            rw [this]; rfl
+          exact C01_extend_longest r h ph lst w hmax hlw
+        · have hnn : pb ≠ (addToBranch r h pb ph lst w).longest := by rw [hl]; exact hpl
+          rw [if_pos hnn] at hset ⊢
+          generalize hr : reselect (addToBranch r h pb ph lst w) = res at hset ⊢
+          cases res with
+          | error x =>
+            simp only at hset ⊢
+            unfold reselect at hr
+            split at hr
+            · simp only [Except.error.injEq] at hr; subst hr; cases hset
+            · split at hr
+              · split at hr
+                · simp only [Except.error.injEq] at hr; subst hr; cases hset
+                · cases hr
+              · cases hr
+          | ok y =>
+            obtain ⟨r2, sent, evs⟩ := y
+            exact C01_reselect_maximal _ r2 sent evs hr
+
+/-- **one submission, automatic clean included, keeps the tip maximal** when the clean — if it runs — finds
+    the best branch at the head of the list as the root branch (no reorganisation pending). -/
+theorem C01_tipmax_step_clean (r : Repo) (h : Hdr) (ok : Bool) (hf : ForestOK r) (hmax : TipMax r)
+    (hset : (processHeader r h ok).2.verdict.settled = true) (hc : CleanRootFirst r h ok) :
+    TipMax (processHeader r h ok).1 := by
+  have hm := tipMax_midState r h ok hmax hset
+  have hfm := forestOK_midState r h ok hf
+  rcases processHeader_mid r h ok with he | he
+  · rw [he]; exact hm
+  · by_cases hne : (processHeader r h ok).1 = midState r h ok
+    · rw [hne]; exact hm
+    · rw [he]
+      obtain ⟨_, hb, hl, hw⟩ := forestOK_cleanWith _ hfm (hc hne) (Facts.pruneDepth : Int) (by decide)
+      obtain ⟨hmem, wl, hwl, hall⟩ := hm
+      refine ⟨by rw [hb, hl]; exact hmem, wl, by rw [hl, hw _ hmem]; exact hwl, ?_⟩
+      intro b hbm
+      rw [hb] at hbm
+      obtain ⟨wb, h1, h2⟩ := hall b hbm
+      exact ⟨wb, by rw [hw b hbm]; exact h1, h2⟩
+
+/-- the history condition of the forest theorems with the automatic clean: no internal error, and whenever
+    the automatic clean runs no reorganisation is pending. -/
+def QuietClean : Repo → List (Hdr × Bool) → Prop
+  | _, [] => True
+  | r, x :: xs =>
+    (processHeader r x.1 x.2).2.verdict.settled = true ∧ CleanRootFirst r x.1 x.2 ∧
+    QuietClean (processHeader r x.1 x.2).1 xs
+
+/-- **C01 for forest histories of any length that start from a Load, automatic cleans included.** From the
+    repository Load builds out of any consistent storage image — or from any well-linked state with a maximal
+    tip —, after ANY history of submissions (forks, overtakes, of any length, crossing any number of
+    automatic cleans as long as none of them runs while a reorganisation is pending): the reported tip is a
+    tracked branch of maximal accumulated work and the best chain is defined and linked from the lowest
+    height kept in memory to the tip. -/
+theorem C01_forest_history_clean (subs : List (Hdr × Bool)) : ∀ (r : Repo), ForestOK r → TipMax r → QuietClean r subs →
+    ForestOK (submitAll r subs) ∧ TipMax (submitAll r subs) := by
+  induction subs with
+  | nil => intro r hf hm _; exact ⟨hf, hm⟩
+  | cons x xs ih =>
+    intro r hf hm hq
+    obtain ⟨h1, h2, h3⟩ := hq
+    simp only [submitAll, List.foldl_cons]
+    exact ih _ (forestOK_processHeader_clean r x.1 x.2 hf h2) (C01_tipmax_step_clean r x.1 x.2 hf hm h1 h2) h3
+
+theorem C01_after_load_any_length (r0 : Repo) (depth : Int) (hd : 0 ≤ depth) (g : Hdr) (hst : StoreOK r0.store)
+    (subs : List (Hdr × Bool)) :
+    ∃ rl, load r0 depth g = (rl, none) ∧
+      (QuietClean rl subs →
+        TipMax (submitAll rl subs) ∧
+        ∃ lo : Int, 0 ≤ lo ∧
+          (∀ x, lo ≤ x → x ≤ tipHeight (submitAll rl subs) →
+            ∃ d, (submitAll rl subs).at (submitAll rl subs).longest x = some d) ∧
+          (∀ x d d', (submitAll rl subs).at (submitAll rl subs).longest x = some d →
+            (submitAll rl subs).at (submitAll rl subs).longest (x - 1) = some d' → d.hdr.prev = d'.hdr.id)) := by
+  obtain ⟨rl, hl, hok⟩ := load_sound r0 depth hd g hst
+  refine ⟨rl, hl, fun hq => ?_⟩
+  obtain ⟨hf, htm⟩ := C01_forest_history_clean subs rl hok.forest ⟨hok.tip, hok.heaviest⟩ hq
+  obtain ⟨lo, h0, _, hcov, hlk⟩ := forest_best_chain _ hf htm.1
+  exact ⟨htm, lo, h0, hcov, hlk⟩
+
+theorem genesis_forestOK : ForestOK genesisRepo := by
+  refine ⟨?_, ?_, ?_, by decide⟩
+  · intro bi hbi
+    have : bi = 0 := by simpa [genesisRepo] using hbi
+    subst this
+    refine ⟨by simp [genesisRepo, Repo.br], trivial, by simp [genesisRepo, Repo.br], by simp [genesisRepo, Repo.br], ?_, ?_⟩
+    · intro hne; exact absurd rfl hne
+    · intro id h hg
+      have hb : (genesisRepo.br 0).hmap = [(0, 0)] := rfl
+      rw [hb] at hg
+      simp only [HMap.get?, List.lookup] at hg
+      split at hg
+      · rename_i heq
+        simp only [Option.some.injEq] at hg
+        subst hg
+        refine ⟨{ hdr := { id := 0, prev := 99, bits := 0x1d00ffff, time := 1 }, work := 4295032833 }, rfl, ?_⟩
+        have e : id = 0 := by simpa using heq
+        exact e.symm
+      · cases hg
+  · exact Linked.root [] 0 (genesisRepo.br 0) .nil (by simp) rfl rfl rfl
+  · intro bi hbi
+    have : bi = 0 := by simpa [genesisRepo] using hbi
+    subst this; decide
+
+theorem genesis_tipMax : TipMax genesisRepo := by
+  refine ⟨by simp [genesisRepo], 4295032833, by decide, ?_⟩
+  intro b hb
+  have : b = 0 := by simpa [genesisRepo] using hb
+  subst this
+  exact ⟨4295032833, by decide, Nat.le_refl _⟩
+
+/-- **C01 from genesis for forest histories of any length** (automatic cleans included, none of them while a
+    reorganisation is pending): maximal tip, best chain linked down to the lowest height kept in memory. -/
+theorem C01_from_genesis_any_length (subs : List (Hdr × Bool)) (hq : QuietClean genesisRepo subs) :
+    TipMax (submitAll genesisRepo subs) ∧
+    ∃ lo : Int, 0 ≤ lo ∧
+      (∀ x, lo ≤ x → x ≤ tipHeight (submitAll genesisRepo subs) →
+        ∃ d, (submitAll genesisRepo subs).at (submitAll genesisRepo subs).longest x = some d) ∧
+      (∀ x d d', (submitAll genesisRepo subs).at (submitAll genesisRepo subs).longest x = some d →
+        (submitAll genesisRepo subs).at (submitAll genesisRepo subs).longest (x - 1) = some d' → d.hdr.prev = d'.hdr.id) := by
+  obtain ⟨hf, htm⟩ := C01_forest_history_clean subs genesisRepo genesis_forestOK genesis_tipMax hq
   obtain ⟨lo, h0, _, hcov, hlk⟩ := forest_best_chain _ hf htm.1
   exact ⟨htm, lo, h0, hcov, hlk⟩
 
